@@ -75,6 +75,13 @@ def _limit():
     resource.setrlimit(resource.RLIMIT_AS, (m, m))
 
 
+def _limit_cex():
+    # concrete playback makes CBMC build and print traces: needs about twice the memory;
+    # only failing units are re-run this way, a few at a time
+    m = max(2 * mem_bytes(), 24 << 30)
+    resource.setrlimit(resource.RLIMIT_AS, (m, m))
+
+
 def kani_build(crate, target):
     t = time.time()
     p = common.run(["cargo", "kani"] + KANI_FLAGS + ["--only-codegen", "--target-dir", target], cwd=crate,
@@ -95,7 +102,7 @@ def kani_run(crate, target, harness, log, playback=False):
     with open(log, "w") as f:
         try:
             p = subprocess.run(cmd, cwd=crate, env=common.ENV, stdout=f, stderr=subprocess.STDOUT,
-                               timeout=HARNESS_TIMEOUT, preexec_fn=_limit)
+                               timeout=HARNESS_TIMEOUT, preexec_fn=_limit_cex if playback else _limit)
             rc = p.returncode
         except subprocess.TimeoutExpired:
             rc = "timeout"
@@ -648,7 +655,7 @@ def main(tier):
                 rc, wall = kani_run(CEX_CRATE, CEX_TARGET, cg["harness"], log, playback=True)
                 return un, cg, rc, open(log, errors="replace").read()
 
-            with concurrent.futures.ThreadPoolExecutor(max_workers=min(j, len(failing))) as ex:
+            with concurrent.futures.ThreadPoolExecutor(max_workers=max(1, min(j // 2, len(failing)))) as ex:
                 for un, cg, rc, text in ex.map(cex, failing):
                     u = units[un]
                     pb = parse_playback(text)
